@@ -2483,6 +2483,7 @@ func (s *swamp) StartSendingEvents() {
 
 // StopSendingEvents is a function that stops sending events about the swamp to the client if the client is unsubscribed from it
 func (s *swamp) StopSendingEvents() {
+	verifhook.Point("swamp.stopSendingEvents", verifhook.ID(s))
 	// set the last interaction time to the current time
 	atomic.StoreInt64(&s.lastInteractionTime, time.Now().UnixNano())
 	atomic.StoreInt32(&s.isEventSendingActive, 0)
